@@ -114,6 +114,7 @@ type AState struct {
 	VPol   string     `json:"vpol"`
 	PPol   bool       `json:"ppol"`
 	EPol   bool       `json:"epol"`
+	LPol   bool       `json:"lpol"`
 	UPol   bool       `json:"upol"`
 	MPol   bool       `json:"mpol"`
 	Lvl    []int      `json:"lvl"`
@@ -226,6 +227,14 @@ func setStackClosure(s stackage.Stack, op string, on bool, alt bool) {
 			s.SetEqualityPolicy()
 		} else {
 			s.SetEqualityPolicy(nil)
+		}
+	case "SetLessFunc":
+		if on {
+			s.SetLessFunc(func(i, j int) bool { return i > j })
+		} else if alt {
+			s.SetLessFunc()
+		} else {
+			s.SetLessFunc(nil)
 		}
 	case "SetUnmarshaler":
 		if on {
@@ -494,6 +503,9 @@ func Build(a AState) *Obj {
 	if a.EPol {
 		setStackClosure(o.S, "SetEqualityPolicy", true, false)
 	}
+	if a.LPol {
+		setStackClosure(o.S, "SetLessFunc", true, false)
+	}
 	if a.UPol {
 		setStackClosure(o.S, "SetUnmarshaler", true, false)
 	}
@@ -696,7 +708,7 @@ func applyInner(o, d *Obj, c Call) (ret []string) {
 		o.S.UnsetLogLevel(lvlArgs(c, &o.n)...)
 	case "SetValidityPolicy":
 		setStackVPol(o.S, c.Str("mode"))
-	case "SetPresentationPolicy", "SetEqualityPolicy", "SetUnmarshaler", "SetMarshaler":
+	case "SetPresentationPolicy", "SetEqualityPolicy", "SetUnmarshaler", "SetMarshaler", "SetLessFunc":
 		o.alt = !o.alt
 		setStackClosure(o.S, c.Op(), c.Bool("on"), o.alt)
 	case "SetID":
@@ -823,6 +835,7 @@ type Obs struct {
 	LogLvls string     `json:"loglevels"`
 	Aux     string     `json:"aux"`
 	Logger  string     `json:"logger"`
+	Less    []string   `json:"less"`
 }
 
 func safeS(f func() string) (s string) {
@@ -954,6 +967,7 @@ func Observe(s stackage.Stack) Obs {
 		}
 		return "other"
 	})
+	o.Less = []string{safeS(func() string { return b2s(s.Less(0, 1)) }), safeS(func() string { return b2s(s.Less(1, 0)) }), safeS(func() string { return b2s(s.Less(0, 0)) })}
 	o.EqSrc, o.UmSrc = "none", "none"
 	if live {
 		o.EqSrc = safeS(func() string {
